@@ -827,3 +827,70 @@ def config_effects(fn, struct_substr="config::Config"):
             raise Inconclusive("%s: return path without a Config value" % fn.path)
         out.append((conds, final, lambda name, final=final: field_of(final, name)))
     return out
+
+
+# ---------------------------------------------------------------- iterator pipelines (for-loops written as adaptor chains)
+
+ITER_TOTAL = ("enumerate", "map", "inspect", "rev", "copied", "cloned", "by_ref", "into_iter", "iter", "iter_mut", "peekable")
+ITER_SUBSET = ("filter", "filter_map")
+ITER_TRUNCATING = ("take", "take_while", "skip", "skip_while", "step_by", "map_while", "scan", "fuse", "chain", "flat_map", "flatten")
+
+
+def iter_pipeline(fn, sink_term):
+    """Stages of `source.adaptor(..)…` feeding a consuming call (for_each, sum, …), source first:
+    [(kind, closure_path_or_None, expr)], kind in source / zip-unbounded / zip / total:<name> / subset:<name> /
+    truncating:<name> / unknown:<name>."""
+    e = fn.expr_of_operand(sink_term["args"][0])
+    stages = []
+    while True:
+        e0 = e
+        while e[0] in ("ref", "deref", "cast"):
+            e = e[2] if e[0] == "cast" else e[1]
+        if e[0] == "call":
+            name = str(e[1])
+            short = name.rsplit("::", 1)[-1]
+            clo = None
+            for a in e[2][1:]:
+                if isinstance(a, tuple) and a and a[0] == "closure":
+                    clo = a[1]
+            if short == "zip":
+                other = e[2][1]
+                while other[0] in ("ref", "deref", "cast"):
+                    other = other[2] if other[0] == "cast" else other[1]
+                unb = other[0] == "agg" and str(other[1]).endswith("RangeFrom::RangeFrom")
+                stages.append(("zip-unbounded" if unb else "zip", None, other))
+                e = e[2][0]
+                continue
+            if short in ("iter", "iter_mut", "into_iter") and not ("Iterator::" in name and short != "into_iter"):
+                stages.append(("source", None, e))
+                break
+            if short in ITER_TOTAL:
+                stages.append(("total:" + short, clo, e))
+            elif short in ITER_SUBSET:
+                stages.append(("subset:" + short, clo, e))
+            elif short in ITER_TRUNCATING:
+                stages.append(("truncating:" + short, clo, e))
+            else:
+                stages.append(("unknown:" + short, clo, e))
+                break
+            e = e[2][0]
+            continue
+        if e[0] == "agg" and (str(e[1]).endswith("Range::Range") or str(e[1]).endswith("RangeInclusive")):
+            stages.append(("source", None, e))
+            break
+        stages.append(("unknown:" + e[0], None, e))
+        break
+    stages.reverse()
+    return stages
+
+
+def closure_tree(facts, crate, path, depth=0):
+    """The closure body and the closures it creates (nested for_each etc.): list of Fn."""
+    b = facts.body(crate, path)
+    if b is None or depth > 4:
+        return []
+    f = fn_of(b)
+    out = [f]
+    for c in closure_creations(f):
+        out += closure_tree(facts, crate, c[3], depth + 1)
+    return out
